@@ -41,7 +41,7 @@ claim('C04', 'instruction whitelist + per-iteration must-check gates + argument 
 claim('C05', 'abstract interpretation over a finite domain with loop fixpoint (aggregator) + must-check gates + argument provenance',
       'Static: the aggregation function is interpreted abstractly (per-certificate result in {OK, NonRevokable, Unknown, Revoked, other}, two-point counter abstraction, ghost bits) to a fixpoint: in every reachable abstract state a Revoked '
       'certificate makes the aggregate Revoked and any non-OK certificate makes it non-OK; the loop is cut by equal lengths, visits all indices and indexes results and chain alike; both validator interfaces get the unsliced chain and the same '
-      'signing time (zero unless signing-authority); a validator error or any aggregate other than OK sets the result\'s Error; the constructor leaves a non-nil validator or client, every delegating constructor forwards the caller's validator/client option unchanged, and a default validator is installed only where the caller supplied neither. Covers all result vectors as abstract states, not as enumerated values; OCSP/CRL are trusted.', 'DESIGN.md 2/C05')
+      'signing time (zero unless signing-authority); a validator error or any aggregate other than OK sets the result\'s Error; the constructor leaves a non-nil validator or client, every delegating constructor forwards the validator/client option of its caller unchanged, and a default validator is installed only where the caller supplied neither. Covers all result vectors as abstract states, not as enumerated values; OCSP/CRL are trusted.', 'DESIGN.md 2/C05')
 
 claim('C06', 'must-check gate analysis with operand provenance + finite decision table by abstract interpretation (regime) on SSA',
       'Static, all-paths: the expiry result is error-free only through expiry.IsZero() or time.Now().Before(expiry); under signing-authority every certificate of the whole chain is inside its window at SignedAttributes.SigningTime; '
@@ -105,7 +105,7 @@ claim('C16', 'taint analysis with certified sanitizers (regexp/syntax certificat
       'DirEntry type, and conversely every way through the listing callback records the name of an entry that is a real directory other than the root, and the callback answers fs.SkipDir only for a directory and never fs.SkipAll (no plugin directory is dropped from the listing). Holds for every name string at once; also analysed under GOOS=windows in the thorough tier. What the OS does with a validated single component is trusted.', 'DESIGN.md 2/C16')
 claim('C17', 'typestate of the exec.Cmd object (dominating unconditional stores) + must-check gates + guarded error-mapping table + who-may-call',
       'Static: decides the structural preconditions of containment — the only process start is exec.CommandContext with the caller\'s context; before Run, unconditionally, Stdout and Stderr are the module\'s limited writer with a positive constant cap, WaitDelay is a positive constant '
-      'and Stdin is the request; the limited writer forwards only with a positive remaining budget, at most that budget, and accounts every forwarded byte (remaining counter or written counter); the runner succeeds only on process success and a whole-buffer json.Unmarshal of stdout; the three failure mappings and all metadata gates (incl. name == plugin name) are fail-closed, and every failing exit of the process runner after Run hands on the captured stderr (Bytes() of the buffer behind cmd.Stderr) so that the plugin's own structured error can be reported. '
+      'and Stdin is the request; the limited writer forwards only with a positive remaining budget, at most that budget, and accounts every forwarded byte (remaining counter or written counter); the runner succeeds only on process success and a whole-buffer json.Unmarshal of stdout; the three failure mappings and all metadata gates (incl. name == plugin name) are fail-closed, and every failing exit of the process runner after Run hands on the captured stderr (Bytes() of the buffer behind cmd.Stderr) so that the structured error the plugin printed can be reported. '
       'NOT decided: real timing and memory, which follow from os/exec semantics (trusted).', 'DESIGN.md 2/C17')
 
 claim('C18', 'must-check gates per success exit (composed through helpers, parameter-substituted) + per-iteration loop gates + returned-value provenance + request-field stores + decision tables',
